@@ -1,5 +1,4 @@
 use std::fs::File;
-use std::io::BufReader;
 use std::os::unix::fs::FileExt;
 use std::path::{Path, PathBuf};
 
@@ -18,29 +17,37 @@ impl CasManager {
         Self { paths, dir_tree_is_pre_created }
     }
 
-    pub fn read_blob(&self, blob_hash: &BlobHash) -> Result<bytes::Bytes, CasManagerError> {
+    /// Opens the blob file. Callers that looked the hash up in the index must call this while
+    /// they still hold the index read guard: once the file is open, a concurrent overwrite or
+    /// removal of the key can unlink the path without affecting the reader.
+    pub fn open_blob(&self, blob_hash: &BlobHash) -> Result<File, CasManagerError> {
         let cas_path = self.paths.cas_file_path(blob_hash);
-        let bytes = std::fs::read(&cas_path).map_err(|e| CasManagerError::FileOperation {
+        File::open(&cas_path).map_err(|e| CasManagerError::FileOperation {
+            operation: CasIoOperation::OpenBuffered,
+            path: cas_path,
+            source: e,
+        })
+    }
+
+    pub fn read_blob(
+        &self,
+        blob_hash: &BlobHash,
+        mut file: File,
+    ) -> Result<bytes::Bytes, CasManagerError> {
+        use std::io::Read;
+        let mut bytes = Vec::new();
+        file.read_to_end(&mut bytes).map_err(|e| CasManagerError::FileOperation {
             operation: CasIoOperation::ReadContent,
-            path: cas_path.clone(),
+            path: self.paths.cas_file_path(blob_hash),
             source: e,
         })?;
         Ok(bytes::Bytes::from(bytes))
     }
 
-    pub fn blob_bufreader(&self, blob_hash: &BlobHash) -> Result<BufReader<File>, CasManagerError> {
-        let cas_path = self.paths.cas_file_path(blob_hash);
-        let file = File::open(&cas_path).map_err(|e| CasManagerError::FileOperation {
-            operation: CasIoOperation::OpenBuffered,
-            path: cas_path.clone(),
-            source: e,
-        })?;
-        Ok(BufReader::new(file))
-    }
-
     pub fn read_blob_range(
         &self,
         blob_hash: &BlobHash,
+        file: File,
         range_start: u64,
         range_end: u64,
     ) -> Result<bytes::Bytes, CasManagerError> {
@@ -52,11 +59,6 @@ impl CasManager {
         }
 
         let cas_path = self.paths.cas_file_path(blob_hash);
-        let file = File::open(&cas_path).map_err(|e| CasManagerError::FileOperation {
-            operation: CasIoOperation::OpenRangeRead,
-            path: cas_path.clone(),
-            source: e,
-        })?;
 
         let read_len = range_end - range_start;
         if read_len == 0 {
